@@ -76,6 +76,21 @@ func runSignVar(sc M) {
 	var payload []byte
 	if str(sc, "payload") == "raw1" {
 		payload = []byte{0x5a}
+	} else if str(sc, "payload") == "update" || str(sc, "payload") == "desclike" {
+		// the payload is data: here a complete signed update staged as the value of another variable (descriptor, then a database),
+		// or 48 raw bytes that happen to have the layout of a minimal descriptor
+		n, tail := 300, storeValue("d1")
+		if str(sc, "payload") == "desclike" {
+			n, tail = 8, nil
+		}
+		var w bytes.Buffer
+		w.Write(timeBytes("typical"))
+		w.Write(le32(uint32(24 + n)))
+		w.Write([]byte{0x00, 0x02, 0xf1, 0x0e})
+		w.Write(wire(map[string]string{"g": pkcs7GUIDWire}, "g"))
+		w.Write(prbytes("staged-certdata", n))
+		w.Write(tail)
+		payload = w.Bytes()
 	} else {
 		payload = storeValue(str(sc, "payload"))
 	}
